@@ -112,6 +112,9 @@ func gffClasses(f iogen.GffFile) []string {
 			if it.Start == 0 {
 				seen["start=0"] = true
 			}
+			if it.Start < 0 {
+				seen["negative-start"] = true
+			}
 		}
 		if it.Kind == "seq" && it.Len > f.Width {
 			seen["inline-seq-multiline"] = true
@@ -138,5 +141,5 @@ func TestGff(t *testing.T) {
 	vlib.Run(t, vlib.Prop[iogen.GffFile]{Name: "gff-roundtrip", Checks: 4000, Thorough: 300000,
 		Gen:   func(t *rapid.T) iogen.GffFile { return iogen.GenGffFile(t, 8) },
 		Check: checkGff, Classes: gffClasses,
-		MinFrac: map[string]float64{"attrs>=2": 0.2, "attrs+comments": 0.1, "infinite-score": 0.02, "inline-seq-multiline": 0.1, "kind-region": 0.2, "start=0": 0.1}})
+		MinFrac: map[string]float64{"attrs>=2": 0.2, "attrs+comments": 0.1, "infinite-score": 0.02, "inline-seq-multiline": 0.1, "kind-region": 0.2, "start=0": 0.1, "negative-start": 0.05}})
 }
